@@ -377,6 +377,7 @@ func c07units(tier string) []mc.Unit {
 			r.Bound("reweight-in-place", "sequences optimise; OptimizeTable(in place); optimise on one table value, all pairs of F count vectors over the value set")
 		}})
 	}
+	us = append(us, historyUnit("api-histories", codonMenu(), 2))
 	// (v) every output of the random protein generator at small lengths
 	maxGen := tier2(tier, 4, 5)
 	us = append(us, mc.Unit{Name: "generator", Serial: true, Weight: 400, Run: func(r *mc.Recorder) {
